@@ -113,6 +113,17 @@ def read_sympy(obj, mode):
     if obj is None:
         return []
     args = list(obj.args) if isinstance(obj, Mul) else [obj]
+    from sympy import Integer, Pow
+
+    expanded = []
+    for a in args:
+        if isinstance(a, Pow) and isinstance(a.exp, Integer) and int(a.exp) >= 0:
+            expanded += [a.base] * int(a.exp)
+        elif a == 1:
+            continue
+        else:
+            expanded.append(a)
+    args = expanded
     out = []
     for a in reversed(args):
         if isinstance(a, Qubit):
@@ -201,8 +212,14 @@ def read_qasm(text, mode, version, nq, name):
         if not m:
             raise qamp.Unsupported("body line %r" % l)
         gm = QASM_GATE.fullmatch(m.group(1))
+        if not gm and m.group(1) in ("mcx", "toffoli", "cnot"):
+            # other accepted spellings of (multi-)controlled X: all but the last operand control
+            gm = QASM_GATE.fullmatch("c" * (len(m.group(3).split()) - 1) + "x")
         if not gm:
-            raise qamp.Unsupported("qasm gate %r" % m.group(1))
+            # the exporter's vocabulary is c..c + {x,y,z,h,s,t,p,swap,i}; any other mnemonic does
+            # not identify the gate that was applied
+            finds.append(("qasm-unknown-gate", "body line %r: mnemonic %r does not name a gate" % (l, m.group(1))))
+            return None, finds
         ws = []
         for nm in m.group(3).split():
             if nm not in pos:
@@ -368,6 +385,8 @@ def check_item(spec):
         for kind, what in judge(label, qc, fw, mode, st, solver):
             if kind == "SKIP":
                 skipped += 1
+                res.setdefault("skip_reasons", {})
+                res["skip_reasons"][what[:60]] = res["skip_reasons"].get(what[:60], 0) + 1
                 continue
             bykind.setdefault(kind, []).append("%s: %s" % (label, what))
     for kind, lst in bykind.items():
@@ -393,6 +412,7 @@ def coverage(specs, results):
         "samples": [{"exporter": "qasm3/circuit", "circuit": "x0 h1 cx01 ccx012 cp(pi/4)01", "verdict": "parsed text re-imported with formal k = qubit k implements the same unitary; formals == qubits"}],
         "exports_by_framework_mode": dict(fam),
         "skipped_outside_reader": sum(r.get("skipped", 0) for r in results),
+        "skip_reasons": dict(sum((collections.Counter(r.get("skip_reasons", {})) for r in results), collections.Counter())),
         "distinct_nontrivial": total,
         "evaluations": total,
         "rule": "every (circuit, exporter, mode) is exported by the real exporter, re-imported by an independent reader into absolute qubit indices, and compared with the source on a symbolic basis state with exact amplitudes",
